@@ -26,7 +26,14 @@ pub enum Case {
     LogEncode { lower: f64, upper: f64, bits: Vec<f64>, x1: f64 },
     /// dependency graph on `n` dependents; members[i] lists what dependent i sums:
     /// j < n = dependent j, n = base variable (has a value), n+1 = variable without value
-    Graph { n: usize, members: Vec<Vec<usize>>, perm: Vec<usize> },
+    Graph {
+        n: usize,
+        members: Vec<Vec<usize>>,
+        perm: Vec<usize>,
+        /// false: f_i = 1 + sum(members); true: f_i = 1 + z * sum(members) with z a variable whose value is 0
+        #[serde(default)]
+        times_zero: bool,
+    },
 }
 
 fn to_map(m: &[(u64, FnRep)]) -> HashMap<u64, v1::Function> {
@@ -39,6 +46,24 @@ fn to_pmap(m: &[(u64, FnRep)]) -> BTreeMap<u64, Poly> {
 const DEP_BASE: u64 = 11;
 const BASE_VAR: u64 = 1;
 const NOVALUE_VAR: u64 = 5;
+
+const ZERO_VAR: u64 = 2;
+
+fn graph_instance_mul(n: usize, members: &[Vec<usize>]) -> InstRep {
+    let mut inst = graph_instance(n, members);
+    inst.vars.push(VarRep::new(ZERO_VAR, KIND_CONTINUOUS, None));
+    for (i, (_, f)) in inst.dependencies.iter_mut().enumerate() {
+        if let FnRep::Lin { terms, c } = f.clone() {
+            // alternate representation: quadratic entries (z, member) / polynomial monomials [member, z]
+            *f = if i % 2 == 0 {
+                FnRep::Quad { entries: terms.iter().map(|(id, co)| (ZERO_VAR, *id, *co)).collect(), lin: Some((vec![], c)) }
+            } else {
+                FnRep::Poly { terms: terms.iter().map(|(id, co)| (vec![ZERO_VAR, *id], *co)).chain(std::iter::once((vec![], c))).collect() }
+            };
+        }
+    }
+    inst
+}
 
 fn graph_instance(n: usize, members: &[Vec<usize>]) -> InstRep {
     let mut vars = vec![VarRep::new(BASE_VAR, KIND_CONTINUOUS, None), VarRep::new(NOVALUE_VAR, KIND_CONTINUOUS, Some((3.0, 9.0)))];
@@ -164,12 +189,13 @@ pub fn check_case(l: &mut Local, case: &Case) {
         }
         Case::Inst { inst, maps, state, order } => check_inst(l, case, inst, maps, state, order),
         Case::LogEncode { lower, upper, bits, x1 } => check_log_encode(l, case, *lower, *upper, bits, *x1),
-        Case::Graph { n, members, perm } => {
+        Case::Graph { n, members, perm, times_zero } => {
             l.transitions += 1;
-            let inst = graph_instance(*n, members);
+            let inst = if *times_zero { graph_instance_mul(*n, members) } else { graph_instance(*n, members) };
             let msg = inst.to_msg();
-            let st = mk_state(&[(BASE_VAR, 2.0)]);
-            let oracle = graph_oracle(*n, members, 2);
+            let st = if *times_zero { mk_state(&[(BASE_VAR, 2.0), (ZERO_VAR, 0.0)]) } else { mk_state(&[(BASE_VAR, 2.0)]) };
+            // with the zero factor every evaluable dependent equals 1, but evaluability is the same
+            let oracle = graph_oracle(*n, members, 2).map(|v| if *times_zero { vec![1; v.len()] } else { v });
             l.outcome(&oracle);
             if members.iter().any(|m| m.iter().any(|x| x < n)) {
                 l.nontrivial += 1;
@@ -198,6 +224,9 @@ pub fn check_case(l: &mut Local, case: &Case) {
                     let mut want: BTreeMap<u64, f64> = BTreeMap::new();
                     want.insert(BASE_VAR, 2.0);
                     want.insert(NOVALUE_VAR, 3.0); // unused variable: nearest to zero within [3, 9]
+                    if *times_zero {
+                        want.insert(ZERO_VAR, 0.0);
+                    }
                     for (i, v) in exp.iter().enumerate() {
                         want.insert(DEP_BASE + i as u64, *v as f64);
                     }
@@ -516,7 +545,7 @@ pub fn run(ctx: &Ctx) -> Finish {
                     let n = WD[s * 4 + 1].load(Ordering::Relaxed) as usize;
                     let members = decode_members(n, WD[s * 4 + 2].load(Ordering::Relaxed));
                     let perm = permutations(n)[WD[s * 4 + 3].load(Ordering::Relaxed) as usize].clone();
-                    let case = json!(Case::Graph { n, members, perm });
+                    let case = json!(Case::Graph { n, members, perm, times_zero: false });
                     let dir = format!("{VERIF_ROOT}/replays/C04");
                     let _ = std::fs::create_dir_all(&dir);
                     let path = format!("{dir}/graph_hang.json");
@@ -547,11 +576,14 @@ pub fn run(ctx: &Ctx) -> Finish {
                     WD[slot * 4 + 2].store(code, Ordering::Relaxed);
                     WD[slot * 4 + 3].store(pi as u64, Ordering::Relaxed);
                     WD[slot * 4].store(now_ms() + 1, Ordering::Relaxed);
-                    let case = Case::Graph { n, members: members.clone(), perm: perm.clone() };
+                    let case = Case::Graph { n, members: members.clone(), perm: perm.clone(), times_zero: false };
                     if pi == 0 && ctx.want_sample((2 << 40) + code) {
                         l.samples.push(((2 << 40) + code, json!(case)));
                     }
                     check_case(l, &case);
+                    if n <= 3 {
+                        check_case(l, &Case::Graph { n, members: members.clone(), perm: perm.clone(), times_zero: true });
+                    }
                     WD[slot * 4].store(0, Ordering::Relaxed);
                 }
             }
@@ -575,8 +607,9 @@ pub fn run(ctx: &Ctx) -> Finish {
         let perms = permutations(n);
         graphs_total += shapes.len() as u64;
         ctx.par(shapes.len() * perms.len(), |l, i| {
-            let case = Case::Graph { n, members: shapes[i / perms.len()].clone(), perm: perms[i % perms.len()].clone() };
+            let case = Case::Graph { n, members: shapes[i / perms.len()].clone(), perm: perms[i % perms.len()].clone(), times_zero: false };
             check_case(l, &case);
+            check_case(l, &Case::Graph { n, members: shapes[i / perms.len()].clone(), perm: perms[i % perms.len()].clone(), times_zero: true });
         });
     }
     stop_wd.store(true, Ordering::Relaxed);
